@@ -122,12 +122,18 @@ func init() {
 				if kind == "clientid" {
 					key = 0
 				}
-				for pos := 0; pos < len(st.m[key]); pos++ {
+				// every single-byte flip, then every truncation (as a non-nil slice, also the empty one)
+				full := len(st.m[key])
+				for pos := 0; pos < 2*full; pos++ {
 					s2 := newPlainStore()
 					for k, v := range st.m {
 						s2.m[k] = clone(v)
 					}
-					s2.m[key][pos] ^= 0x40
+					if pos < full {
+						s2.m[key][pos] ^= 0x40
+					} else {
+						s2.m[key] = append([]byte{}, s2.m[key][:pos-full]...)
+					}
 					dialed := 0
 					conn := newLoopConn()
 					cfg := baseConfig()
